@@ -167,6 +167,10 @@ fn enclosing_fn(file: &str, line: u32) -> String {
     "?".into()
 }
 
+pub fn enclosing_fn_pub(file: &str, line: u32) -> String {
+    enclosing_fn(file, line)
+}
+
 pub fn install_panic_hook() {
     panic::set_hook(Box::new(|info| {
         let message = if let Some(s) = info.payload().downcast_ref::<&str>() {
